@@ -1,7 +1,7 @@
 (** C10 - cursor and seek navigation agree with the sorted key sequence.
     Statements only; proofs are in Nav.v. *)
 From Coq Require Import List NArith ZArith Bool.
-From Mast Require Import Prim Key Tree KeyOrder Codec Store Diff World Erase Build Spec Canon Level Inv Nav Hist Cursor.
+From Mast Require Import Prim Key Tree KeyOrder Codec Store Diff World Erase Build Spec Canon Level Inv Nav Hist Cursor Reload WorldInv CursorHist.
 Import ListNotations.
 
 Section GENERIC.
@@ -130,6 +130,32 @@ Theorem C10_position_ceil : forall F k (n : node K V), ne K V F n -> ssorted K V
 Proof. exact (pos_ceil K V cmp cmp_eq cmp_trans). Qed.
 End POSITION.
 
+(** In histories: cursors made on any non-empty tree of any reachable world (built, cloned, persisted,
+    reloaded), positioned once by Min, Max or Ceil and then moved by ANY mix of Forward and Backward
+    and read by Get, observe what the abstract cursor [cstep] computes over the sorted listing the tree
+    had when the cursor was made - together with all the other supported operations of
+    C01_refines_sorted_map, whatever happens to the tree afterwards. *)
+Theorem C10_cursors_in_histories : forall ops w a ac,
+  winv2 w a -> cinv w ac -> conds3 w (a, ac) ops ->
+  map (fun x => pobs (fst x)) (run w ops) = arun3 (a, ac) ops.
+Proof. exact history_refines3. Qed.
+
+(* non-vacuity: a persisted and reloaded tree, a cursor on it, a mixed walk, the tree modified meanwhile *)
+Local Open Scope N_scope.
+Definition cur_ops : list op :=
+  [ONew 0 0 2 None 1; OIns 0 (KUint 1) [49]; OIns 0 (KUint 2) [50]; OIns 0 (KUint 4) [51]; OIns 0 (KUint 8) [52]; OIns 0 (KUint 9) [53];
+   OMakeRoot 0 0; OLoad 0 1 0 1; OCursor 1 0; OCCeil 0 (KUint 3); OCGet 0; OIns 1 (KUint 5) [60]; OCFwd 0; OCGet 0; OCBwd 0; OCBwd 0; OCGet 0;
+   OCursor 1 1; OCMax 1; OCGet 1; OCFwd 1; OCGet 1].
+Example C10_example_cursors :
+  conds3 empty_world (([], []), []) cur_ops /\
+  map (fun x => pobs (fst x)) (run empty_world cur_ops) = arun3 (([], []), []) cur_ops /\
+  nth 10%nat (arun3 (([], []), []) cur_ops) BOk = BEntry (Some (KUint 4, [51])) /\
+  nth 13%nat (arun3 (([], []), []) cur_ops) BOk = BEntry (Some (KUint 8, [52])) /\
+  nth 16%nat (arun3 (([], []), []) cur_ops) BOk = BEntry (Some (KUint 2, [50])) /\
+  nth 19%nat (arun3 (([], []), []) cur_ops) BOk = BEntry (Some (KUint 9, [53])) /\
+  nth 21%nat (arun3 (([], []), []) cur_ops) BOk = BEntry None.
+Proof. split; [apply conds3b_ok; vm_compute; reflexivity|]. vm_compute. repeat split; reflexivity. Qed.
+
 (** cursors on empty trees report no entry (C10_seek_empty for seeks; the correspondence check for
     the cursor calls). *)
 Print Assumptions C10_seek_iter.
@@ -152,3 +178,4 @@ Print Assumptions C10_position_backward.
 Print Assumptions C10_position_min.
 Print Assumptions C10_position_max.
 Print Assumptions C10_position_ceil.
+Print Assumptions C10_cursors_in_histories.
